@@ -267,11 +267,10 @@ class SATEncoder:
         from solvor.cp import IntVar
 
         name = f"_aux{self._next_bool}"
-        var = IntVar(self.model, lb, ub, name)
-        # Manually create bool vars using our counter
-        var.bool_vars = {}
-        for v in range(lb, ub + 1):
-            var.bool_vars[v] = self._new_bool_var()
+        # The encoder is the allocator: IntVar draws its literals from _new_bool_var(), and drawing them from
+        # the model would advance the model's counter on every solve, leaving unused literal numbers behind
+        # (free variables for the SAT solver: a second enumerating solve of the same model blows up).
+        var = IntVar(self, lb, ub, name)
         # Auxiliary variables live for one encoding only (registering them in the model would make a
         # later solve re-encode them with literals that collide with freshly allocated ones).
         # They are created after _encode_vars ran: ground them here
